@@ -2,7 +2,7 @@
 //! carries on at the right position, `NextEven` consumes one more byte, `Fail` errors; after
 //! every token the reader's reported position equals the bytes consumed from the source.
 
-use crate::gen::ds::{pools, ALL_VRS};
+use crate::gen::ds::{gen_dataset, pools, DsOpts, ALL_VRS};
 use crate::gen::tree::*;
 use crate::mon::probe::{CountingReader, Probe};
 use crate::props::c01::four_ts;
@@ -13,7 +13,7 @@ use dicom_core::header::{HasLength, Header};
 use dicom_core::value::PrimitiveValue;
 use dicom_core::VR;
 use dicom_parser::dataset::lazy_read::{LazyDataSetReader, LazyDataSetReaderOptions};
-use dicom_parser::dataset::read::{DataSetReader, DataSetReaderOptions, OddLengthStrategy};
+use dicom_parser::dataset::read::{DataSetReader, DataSetReaderOptions, OddLengthStrategy, ValueReadStrategy};
 use dicom_parser::dataset::{DataToken, LazyDataToken};
 use dicom_parser::StatefulDecoder;
 use serde_json::json;
@@ -211,7 +211,7 @@ fn strat_name(s: OddLengthStrategy) -> &'static str {
     }
 }
 
-fn observe_eager(bytes: &[u8], tc: &crate::props::c01::TsCase, strat: OddLengthStrategy) -> Obs {
+fn observe_eager(bytes: &[u8], tc: &crate::props::c01::TsCase, strat: OddLengthStrategy, vread: ValueReadStrategy) -> Obs {
     let consumed = Rc::new(Cell::new(0u64));
     let pos = Rc::new(Cell::new(0u64));
     let src = CountingReader { data: bytes, at: 0, consumed: consumed.clone() };
@@ -219,6 +219,7 @@ fn observe_eager(bytes: &[u8], tc: &crate::props::c01::TsCase, strat: OddLengthS
     let probe = Probe { inner: dec, pos: pos.clone() };
     let mut o = DataSetReaderOptions::default();
     o.odd_length = strat;
+    o.value_read = vread;
     let reader = DataSetReader::new(probe, o);
     let mut obs = Obs { events: Vec::new(), error: None, desync: None, consumed: 0 };
     let mut last_vr = VR::UN;
@@ -299,6 +300,92 @@ fn observe_lazy(bytes: &[u8], tc: &crate::props::c01::TsCase, strat: OddLengthSt
     obs
 }
 
+/// Blank (all-space) values on the VRs that the interpreting value reader parses.
+fn blank_some(ds: &mut Vec<GElem>, rng: &mut Rng, n: &mut u64) {
+    for e in ds.iter_mut() {
+        match &mut e.val {
+            GVal::Seq(sq) => for it in sq.items.iter_mut() { blank_some(&mut it.elems, rng, n); },
+            _ => {
+                if matches!(e.vr, VR::DA | VR::TM | VR::DT | VR::IS | VR::DS) && rng.bool() {
+                    e.val = GVal::Str(" ".repeat(rng.urange(1, 4)));
+                    *n += 1;
+                }
+            }
+        }
+    }
+}
+
+fn structure(ev: &[String]) -> Vec<String> {
+    ev.iter().map(|e| if e.starts_with("val ") { "val".to_string() } else { e.clone() }).collect()
+}
+
+/// Position accounting under every value reading strategy (Interpreted, Preserved, Raw) on
+/// well-formed streams that also carry blank date/time/number values inside explicit-length items.
+fn run_vread(cfg: &Cfg) -> Local {
+    let tss = four_ts();
+    let n = cfg.n(6_000, 150_000);
+    run_parallel(
+        cfg,
+        71,
+        RunLimits { cases: n, wall: Duration::from_secs(if cfg.thorough() { 600 } else { 60 }) },
+        |l: &mut Local, rng: &mut Rng, idx: u64| {
+            let ti = rng.usize(3);
+            let tc = &tss[ti];
+            let ts = Ts::ALL[ti];
+            let mut opts = DsOpts::default();
+            opts.explicit_marks = true;
+            opts.pixel = false;
+            opts.big = false;
+            opts.foreign_sq = false;
+            opts.vrs = Some(vec![VR::DA, VR::TM, VR::DT, VR::IS, VR::DS, VR::SQ, VR::SQ, VR::LO, VR::US, VR::UI, VR::FD, VR::AT]);
+            let mut ds = gen_dataset(rng, &opts);
+            let mut blanks = 0u64;
+            blank_some(&mut ds, rng, &mut blanks);
+            l.count("vread_blank_values", blanks);
+            let enc = refenc::encode(&ds, ts, LenMode::AsMarked);
+            let replay = json!({"seed": cfg.seed, "stream": 71, "case": idx, "leg": "vread", "ts": tc.name, "stream_hex": hex_short(&enc.bytes, 2048)});
+            let mut preserved: Option<Obs> = None;
+            for (vname, vs) in [("Preserved", ValueReadStrategy::Preserved), ("Interpreted", ValueReadStrategy::Interpreted), ("Raw", ValueReadStrategy::Raw)] {
+                l.eval();
+                let obs = match guarded(|| observe_eager(&enc.bytes, tc, OddLengthStrategy::Accept, vs)) {
+                    Ok(o) => o,
+                    Err(p) => { l.violation(format!("vread|{}|{}|panic|{}", tc.name, vname, panic_loc(&p)), p, replay.clone()); continue; }
+                };
+                l.class(format!("vread|{}|{}|blank{}|err{}", tc.name, vname, blanks.min(3), obs.error.is_some() as u8));
+                if let Some((i, p, c)) = obs.desync {
+                    let vr = obs.events.iter().take(i + 1).rev().find(|e| e.starts_with("hdr ")).and_then(|h| {
+                        let tag = &h[4..12];
+                        enc.pos.iter().find(|q| format!("{:04X}{:04X}", q.tag.0, q.tag.1) == tag).map(|q| q.vr.to_string().to_owned())
+                    }).unwrap_or_else(|| "-".into());
+                    l.violation(format!("vread|{}|{}|position|vr={}", tc.name, vname, vr), format!("value reading strategy {}: after token {} ({:?}) the reader reports position {} but {} bytes were consumed", vname, i, obs.events.get(i), p, c), replay.clone());
+                    continue;
+                }
+                if let Some(e) = &obs.error {
+                    if vname == "Preserved" {
+                        l.violation(format!("vread|{}|Preserved|error|{}", tc.name, err_class(e)), format!("reading a well-formed stream failed: {}", e), replay.clone());
+                    } else {
+                        // the interpreting reader may reject text the preserving reader keeps
+                        l.count("vread_strategy_errors", 1);
+                        if preserved.as_ref().map(|p| p.error.is_none()).unwrap_or(false) && vname == "Raw" {
+                            l.violation(format!("vread|{}|Raw|error|{}", tc.name, err_class(e)), format!("the raw value reader failed on a well-formed stream: {}", e), replay.clone());
+                        }
+                    }
+                } else {
+                    if obs.consumed != enc.bytes.len() as u64 {
+                        l.violation(format!("vread|{}|{}|consumed", tc.name, vname), format!("{} of {} bytes consumed", obs.consumed, enc.bytes.len()), replay.clone());
+                    }
+                    if let Some(p) = &preserved {
+                        if p.error.is_none() && structure(&p.events) != structure(&obs.events) {
+                            l.violation(format!("vread|{}|{}|structure", tc.name, vname), format!("token structure under {} differs from the preserving reader", vname), replay.clone());
+                        }
+                    }
+                }
+                if vname == "Preserved" { preserved = Some(obs); }
+            }
+        },
+    )
+}
+
 pub fn run(cfg: &Cfg) -> Outcome {
     let tss = four_ts();
     let n = cfg.n(20_000, 500_000);
@@ -328,7 +415,7 @@ pub fn run(cfg: &Cfg) -> Outcome {
                 for reader in ["eager", "lazy", "lazy-skip"] {
                     l.eval();
                     let obs = match guarded(|| match reader {
-                        "eager" => observe_eager(&enc.bytes, tc, strat),
+                        "eager" => observe_eager(&enc.bytes, tc, strat, ValueReadStrategy::Preserved),
                         "lazy" => observe_lazy(&enc.bytes, tc, strat, false),
                         _ => observe_lazy(&enc.bytes, tc, strat, true),
                     }) {
@@ -382,9 +469,15 @@ pub fn run(cfg: &Cfg) -> Outcome {
             }
         },
     );
+    let mut local = local;
+    if cfg.only_case.is_none() || cfg.has_flag("--vread") {
+        let v = run_vread(cfg);
+        if cfg.has_flag("--vread") { local = Local::new(); }
+        local.merge(v);
+    }
     let mut o = Outcome::new(
         local,
-        "reference-encoded streams with odd declared lengths on values of every VR (text, byte and multi-byte-sample VRs; lengths 1..17; top level and inside explicit/undefined-length items) × 3 transfer syntaxes × 3 odd-length strategies × {eager, lazy, lazy with skip}; monitors: reported position == bytes consumed after every token (probe decoder + counting source), event sequence (headers with their lengths, structure tokens, values) == expectation computed from the description, Fail strategy errs; class = (TS, strategy, VR, length, depth)",
+        "reference-encoded streams with odd declared lengths on values of every VR (text, byte and multi-byte-sample VRs; lengths 1..17; top level and inside explicit/undefined-length items) × 3 transfer syntaxes × 3 odd-length strategies × {eager, lazy, lazy with skip}; monitors: reported position == bytes consumed after every token (probe decoder + counting source), event sequence (headers with their lengths, structure tokens, values) == expectation computed from the description, Fail strategy errs; class = (TS, strategy, VR, length, depth) || well-formed streams with blank DA/TM/DT/IS/DS values inside explicit-length items read with each value reading strategy (Preserved, Interpreted, Raw): position == consumed after every token, same token structure, whole stream consumed",
     );
     o.min_evaluations = 5000;
     o.min_classes = 300;
